@@ -64,12 +64,12 @@ func c06FromSchemaFile(c *Ctx, r *gen.Rand) {
 	ncols := len(schema.Columns())
 	nrg := gen.Pick(r, []int{1, 2, 3, 5})
 	per := gen.Pick(r, []int{20, 90, 300})
-	shape := r.Intn(5)
+	shape := r.Intn(6)
 	limit := gen.Pick(r, []int{1, 4, 16})
 	c.D("source", "schema_file")
 	c.D("row_groups", nrg)
 	c.D("rows_per_group", per)
-	c.D("shape", []string{"ascending", "descending", "unordered", "outlier", "rowgroup_overlap"}[shape])
+	c.D("shape", []string{"ascending", "descending", "unordered", "outlier", "rowgroup_overlap", "null_rowgroup_between"}[shape])
 	c.D("cisize", limit)
 	var buf bytes.Buffer
 	w := parquet.NewWriter(&buf, schema, parquet.PageBufferSize(gen.Pick(r, []int{32, 128, 1024})), parquet.ColumnIndexSizeLimit(func([]string) int { return limit }), parquet.DataPageVersion(1+r.Intn(2)))
@@ -92,6 +92,10 @@ func c06FromSchemaFile(c *Ctx, r *gen.Rand) {
 				if i%97 == 5 && i < per/2 {
 					k = int64(nrg * per)
 				}
+			case 5:
+				// every row group ascending on its own, the groups in falling order, and every other group
+				// holds nulls only: neighbours with values are never adjacent
+				k = base + int64((nrg-g)*per) + int64(i/3)
 			default:
 				// every row group ascending on its own; its last rows reach into the next group's range
 				k = base + int64(gi/3)
@@ -102,7 +106,7 @@ func c06FromSchemaFile(c *Ctx, r *gen.Rand) {
 			row := make(parquet.Row, ncols)
 			for _, col := range c06Cols {
 				ci := colOf[col.name]
-				if nulls[i] {
+				if nulls[i] && !(shape == 5 && g%2 == 1) {
 					row[ci] = col.val(k, r).Level(0, 1, ci)
 				} else {
 					row[ci] = parquet.Value{}.Level(0, 0, ci)
@@ -209,7 +213,15 @@ func c06ProbeChunk(c *Ctx, chunk parquet.ColumnChunk, src, col string) bool {
 			c.Obs("probes", 1)
 			c.Obs("probe_present", 1)
 			if got > first {
-				c.Fail("c06.missed_page", keys, "Search returned %d but value %v occurs in page %d of %d (%s, column %s, ascending=%v descending=%v)", got, v, first, index.NumPages(), src, col, index.IsAscending(), index.IsDescending())
+				layout := ""
+				for q := 0; q < index.NumPages() && q < 24; q++ {
+					if index.NullPage(q) {
+						layout += " null"
+					} else {
+						layout += fmt.Sprintf(" [%v,%v]", index.MinValue(q), index.MaxValue(q))
+					}
+				}
+				c.Fail("c06.missed_page", keys, "Search returned %d but value %v occurs in page %d of %d (%s, column %s, ascending=%v descending=%v); pages:%s", got, v, first, index.NumPages(), src, col, index.IsAscending(), index.IsDescending(), layout)
 				return false
 			}
 			if got < index.NumPages() && !index.NullPage(got) && (typ.Compare(v, index.MinValue(got)) < 0 || typ.Compare(v, index.MaxValue(got)) > 0) {
